@@ -1098,6 +1098,18 @@ def bi_subseq(st, args, kw):
         st.spec = was
 
 
+def bi_alloc_ordered(st, args, kw):
+    """alloc_ordered(l): the objects in l appear in allocation order (strictly increasing references) --
+    a ghost fact that implies pairwise distinctness and is preserved by appending a newly created object"""
+    s, et = B.seq_of(st, args[0])
+    st.nfresh += 1
+    i = z3.Int('i!ao%d' % st.nfresh)
+    j = z3.Int('j!ao%d' % st.nfresh)
+    return E.mk_bool(z3.ForAll([i, j], z3.Implies(z3.And(0 <= i, i < j, j < s.n),
+                                                  z3.Select(s.arr, i) < z3.Select(s.arr, j)),
+                               patterns=[z3.MultiPattern(z3.Select(s.arr, i), z3.Select(s.arr, j))]))
+
+
 def bi_mkseq(st, args, kw):
     a, n = args
     return Val(T.TSeq(a.t.args[1]), SeqV(a.z, n.z))
@@ -1155,7 +1167,7 @@ def bi_dict(st, args, kw):
 
 
 _BUILTINS = {
-    'mkseq': bi_mkseq, 'py_join_seq': bi_py_join_seq, 'subseq': bi_subseq, 'py_int_ok': bi_py_int_ok, 'py_int_val': bi_py_int_val, 'substr': bi_substr, 'str_index': bi_str_index, 'py_lower': bi_py_lower, 'substr_after_last': bi_substr_after_last, 'pure_IO_encrypted_of': bi_pure_IO_encrypted_of, 'str_prefix': bi_str_prefix, 'nraised': bi_nraised, 'allocated': bi_allocated, 'ncalls': bi_ncalls, 'call_arg': bi_call_arg,
+    'mkseq': bi_mkseq, 'alloc_ordered': bi_alloc_ordered, 'py_join_seq': bi_py_join_seq, 'subseq': bi_subseq, 'py_int_ok': bi_py_int_ok, 'py_int_val': bi_py_int_val, 'substr': bi_substr, 'str_index': bi_str_index, 'py_lower': bi_py_lower, 'substr_after_last': bi_substr_after_last, 'pure_IO_encrypted_of': bi_pure_IO_encrypted_of, 'str_prefix': bi_str_prefix, 'nraised': bi_nraised, 'allocated': bi_allocated, 'ncalls': bi_ncalls, 'call_arg': bi_call_arg,
     'call_result': bi_call_result, 'trig': bi_trig, 'same': bi_same, 'is_list': bi_is_list, 'store': bi_store, 'dict_has': bi_dict_has,
     'dict_get': bi_dict_get, 'dict_keys': bi_dict_keys, 'dict': bi_dict, 'dict_index': bi_dict_index,
     'len': bi_len, 'set': bi_set, 'list': bi_list, 'tuple': bi_tuple, 'min': bi_min, 'max': bi_max,
